@@ -34,7 +34,7 @@ ASSUMPTIONS = ["TestScheduler / HistoricalScheduler are the clocks (ordering che
                "judged; the windows are",
                "buffer operators emit one list per window (empty windows give empty lists) except buffer_with_count, "
                "which drops empty lists (DESIGN.md section 5)"]
-CASES = {"quick": 4800, "thorough": 150000}
+CASES = {"quick": 4800, "thorough": 400000}
 OPS = ["window_with_count", "buffer_with_count", "window_with_time", "buffer_with_time",
        "window_with_time_or_count", "buffer_with_time_or_count", "window", "buffer",
        "window_when", "buffer_when", "window_toggle", "buffer_toggle"]
@@ -42,9 +42,9 @@ FAM = {"window_with_count": "count", "buffer_with_count": "count", "window_with_
        "window_with_time_or_count": "toc", "buffer_with_time_or_count": "toc", "window": "boundary", "buffer": "boundary",
        "window_when": "when", "buffer_when": "when", "window_toggle": "toggle", "buffer_toggle": "toggle"}
 REQUIRED = {"set:ops": len(OPS), "set:clock_param": 4, "set:shapes": 6,
-            "ties": {"quick": 100, "thorough": 2000},
+            "ties": {"quick": 100, "thorough": 5000},
             "same_instant_aux_and_element": {"quick": 40, "thorough": 800},
-            "windows_checked": {"quick": 3000, "thorough": 90000}}
+            "windows_checked": {"quick": 3000, "thorough": 250000}}
 UNIT_TIMEOUT = {"quick": 300, "thorough": 2400}
 STEPS = (0, 5, 5, 10, 10, 15, 1, 4, 6)
 T0 = SUB_AT
